@@ -236,6 +236,8 @@ pub enum Op {
     Step { g: usize, extra: usize },
     Query { g: usize },
     Finish { g: usize },
+    /// step with fperiod-sized buffers until the generator is exhausted (at most `max` steps)
+    Drain { g: usize, max: usize },
     DropGen { g: usize },
 }
 
@@ -287,6 +289,7 @@ impl TOp {
             Op::Step { g, extra } => format!("t{} step g{} {}", t, g, extra),
             Op::Query { g } => format!("t{} query g{}", t, g),
             Op::Finish { g } => format!("t{} finish g{}", t, g),
+            Op::Drain { g, max } => format!("t{} drain g{} {}", t, g, max),
             Op::DropGen { g } => format!("t{} dropgen g{}", t, g),
         }
     }
@@ -327,6 +330,7 @@ impl TOp {
             "step" => Op::Step { g: slot(w.get(2)?, 'g')?, extra: w.get(3)?.parse().ok()? },
             "query" => Op::Query { g: slot(w.get(2)?, 'g')? },
             "finish" => Op::Finish { g: slot(w.get(2)?, 'g')? },
+            "drain" => Op::Drain { g: slot(w.get(2)?, 'g')?, max: w.get(3)?.parse().ok()? },
             "dropgen" => Op::DropGen { g: slot(w.get(2)?, 'g')? },
             _ => return None,
         };
@@ -347,6 +351,7 @@ impl TOp {
             Op::Step { .. } => "step",
             Op::Query { .. } => "query",
             Op::Finish { .. } => "finish",
+            Op::Drain { .. } => "drain",
             Op::DropGen { .. } => "dropgen",
         }
     }
